@@ -117,6 +117,20 @@ func runPrefix(w *World, name string) {
 			w.Step(pt.Action{Op: "inc", R: 0, P: 1})
 		}
 		syncAll()
+	case "bulk": // replica 0 has as many unpushed operations as the push buffer is sized for (constants.OperationBufferSize = 1024), less two:
+		// the next transaction's unit lies across that mark
+		for i := 0; i < 1022; i++ {
+			switch w.P.Type {
+			case "map":
+				w.Step(pt.Action{Op: "put", R: 0, K: "a", V: "p"})
+			case "list":
+				w.Step(pt.Action{Op: "ins1", R: 0, P: 0, V: "p"})
+			case "doc":
+				w.Step(pt.Action{Op: "dput", R: 0, K: "a", V: "p"})
+			default:
+				w.Step(pt.Action{Op: "inc", R: 0, P: 1})
+			}
+		}
 	case "bound": // a counter five below the largest 32-bit value on every replica: the next increments wrap around
 		w.Step(pt.Action{Op: "inc", R: 0, P: 2147483647})
 		w.Step(pt.Action{Op: "inc", R: 0, P: -2})
